@@ -27,13 +27,13 @@ theorem RReach.time_le_min {cx : Ctx} {L P : List Conn} (w : RW cx L) (hP : ∀ 
 structure RCθ (cx : Ctx) (θ : Int) (P : List Conn) (s : RState) : Prop where
   lab : ∀ y t, RReach cx P y t → θ ≤ t → t ≤ s.lab y
   exit : ∀ x ∈ P, UnboardP cx P x → θ ≤ x.arr → (s.exitC x.trip).isSome = true
-  acc : ∀ e ∈ P, ∀ x ∈ P, UnboardP cx P x → e.trip = x.trip → e.seq ≤ x.seq → e.canBoard = true →
+  acc : ∀ e ∈ P, ∀ x ∈ P, UnboardP cx P x → e.trip = x.trip → e.seq ≤ x.seq → e.canBoard = true → AccOK cx e →
     θ ≤ e.arr → AccGe cx s e.depStop (e.dep - e.effWait cx.p.minWait) ∧ 1 ≤ s.count
   stop : s.stop = true → ∃ c0 ∈ P, c0.arr < θ
   accWF : ∀ y js, s.acc y = some js → ∃ e, js.enter = some e
   /-- once an access stop is reached: by a boarding at a stop the router offers, kept at least as late -/
   reach : s.reached = true → ∃ c1 ∈ P, c1.dep = s.tentAccDep ∧ (∃ a1, cx.nodesAccess c1.depStop = some a1) ∧
-    AccGe cx s c1.depStop (c1.dep - c1.effWait cx.p.minWait) ∧ 1 ≤ s.count
+    (AccOK cx c1 → AccGe cx s c1.depStop (c1.dep - c1.effWait cx.p.minWait)) ∧ 1 ≤ s.count
   /-- kept boardings are scanned connections -/
   accMem : ∀ y js e, s.acc y = some js → js.enter = some e → e ∈ P
 
@@ -337,7 +337,7 @@ theorem revStep1_RCθ {cx : Ctx} {L P : List Conn} {s : RState} {c : Conn} {θ :
       simp only
       exact (revBoard1_better cx (revUnboard cx s x) x haccWFu).1.exit _ hex
   · -- kept boardings, and the count
-    intro e he x hx hu ht hs hcb hd
+    intro e he x hx hu ht hs hcb hok hd
     by_cases hec : e = c
     · subst hec
       obtain ⟨hm, hex⟩ := hmain x hx hu ht hs hd
@@ -346,7 +346,7 @@ theorem revStep1_RCθ {cx : Ctx} {L P : List Conn} {s : RState} {c : Conn} {θ :
       refine ⟨?_, by simp only; omega⟩
       show AccGe cx (revBoard cx true (revUnboard cx s e) e) e.depStop (e.dep - e.effWait cx.p.minWait)
       rw [revBoard1_eq, if_pos ⟨hcb, hex⟩]
-      exact revFoot_fold_acc cx e f0 hf0t hf0s w.noDep _ _ (by rw [(revMark_facts cx _ e).2.1]; exact haccWFu) hf0
+      exact revFoot_fold_acc cx e f0 hf0t hf0s hok _ _ (by rw [(revMark_facts cx _ e).2.1]; exact haccWFu) hf0
     · have heP : e ∈ P := by
         rcases List.mem_append.mp he with h' | h'
         · exact h'
@@ -356,7 +356,7 @@ theorem revStep1_RCθ {cx : Ctx} {L P : List Conn} {s : RState} {c : Conn} {θ :
         · exact h'
         · simp at h'; subst h'
           exact absurd (hsame e heP ht hs) hec
-      obtain ⟨ha, hcnt⟩ := h.acc e heP x hxP (hu.strengthen w hP (harrP x hxP)) ht hs hcb hd
+      obtain ⟨ha, hcnt⟩ := h.acc e heP x hxP (hu.strengthen w hP (harrP x hxP)) ht hs hcb hok hd
       exact ⟨hbet.acc _ _ ha, Nat.le_trans hcnt (revStep1_count_mono cx s c)⟩
   · -- the stop flag
     intro hst
@@ -393,7 +393,7 @@ theorem revStep1_RCθ {cx : Ctx} {L P : List Conn} {s : RState} {c : Conn} {θ :
       by_cases hsr : s.reached = true
       · -- reached before: nothing changes
         obtain ⟨c1, hc1, a, b, d, dcnt⟩ := h.reach hsr
-        refine ⟨c1, hmonoP c1 hc1, ?_, b, hbetS.acc _ _ d, by rw [revBoard1_count, (revUnboard_misc cx s c).2.2]; omega⟩
+        refine ⟨c1, hmonoP c1 hc1, ?_, b, fun hok => hbetS.acc _ _ (d hok), by rw [revBoard1_count, (revUnboard_misc cx s c).2.2]; omega⟩
         rw [a, revBoard1_eq]
         have hum := revUnboard_misc cx s c
         have hmk : revMark cx (revUnboard cx s c) c = revUnboard cx s c := by
@@ -419,7 +419,7 @@ theorem revStep1_RCθ {cx : Ctx} {L P : List Conn} {s : RState} {c : Conn} {θ :
             · cases hna : cx.nodesAccess c.depStop with
               | none => rw [hna] at hmk; simp at hmk
               | some a1 => exact ⟨a1, rfl⟩
-            · exact revFoot_fold_acc cx c f0 hf0t hf0s w.noDep _ _ (by simp only; exact haccWFu) hf0
+            · intro hok; exact revFoot_fold_acc cx c f0 hf0t hf0s hok _ _ (by simp only; exact haccWFu) hf0
           · rw [if_neg hmk] at hre
             rw [hum.1] at hre
             exact absurd hre hsr
